@@ -26,6 +26,7 @@ import time
 
 from .. import env
 from ..rec import Rec, stable_hash
+import copy
 
 LEVEL = 'exploration'
 RULE = (
@@ -136,6 +137,27 @@ DIRECTED = {
         _t(_PANEL, labels=[3, 4, 8, 10, 11, 12, 20, 21, 22, 30]), _panel_sp(),
         [{'op': 'remove', **_eq('k', 2)}, {'op': 'panel', 'column': 'Person'}, {'op': 'sample_map', 'size': 40}, {'op': 'flat', 'identical': None},
          {'op': 'extract_rows', 'positions': [0, 1, 2], 'form': 'range', 'switch': False}]),
+    # a block of consecutive rows extracted with a range object, then in-place operations on both databases
+    'extract-range-then-scale-both-databases': lambda: (
+        _t(_PANEL, ints=['Person', 'k', 'av']), _panel_sp(),
+        [{'op': 'remove', **_eq('k', 2)}, {'op': 'extract_rows', 'positions': [1, 2, 3, 4], 'form': 'range', 'switch': False},
+         {'op': 'scale_column', 'column': 'x', 'scale': 10, 'on': 1}, {'op': 'scale_column', 'column': 'p', 'scale': 0.5, 'on': 0},
+         {'op': 'scale_column', 'column': 'k', 'scale': 2, 'on': 1}, {'op': 'scale_column', 'column': 'k', 'scale': 3, 'on': 0},
+         {'op': 'remove', **_eq('av', 0), 'on': 1}, {'op': 'count', 'column': 'k', 'value': 3.0, 'on': 0}]),
+    'extract-other-argument-forms-then-scale': lambda: (
+        _t(_PANEL, ints=['Person', 'k', 'av']), _panel_sp(),
+        [{'op': 'extract_rows', 'positions': [0, 2, 4, 6, 8], 'range': [0, 10, 2], 'form': 'srange', 'switch': False},
+         {'op': 'extract_rows', 'positions': [3, 4, 5], 'form': 'tuple', 'switch': False},
+         {'op': 'extract_rows', 'positions': [5, 6, 7, 7], 'form': 'array', 'switch': False},
+         {'op': 'extract_rows', 'positions': [9, 8, 7, 6, 5, 4, 3, 2, 1, 0], 'range': [9, -1, -1], 'form': 'srange', 'switch': False},
+         {'op': 'scale_column', 'column': 'x', 'scale': -2.0, 'on': 1}, {'op': 'scale_column', 'column': 'k', 'scale': 2, 'on': 2},
+         {'op': 'scale_column', 'column': 'p', 'scale': 3, 'on': 3}, {'op': 'scale_column', 'column': 'x', 'scale': 0.5, 'on': 4},
+         {'op': 'scale_column', 'column': 'x', 'scale': 4, 'on': 0}, {'op': 'scale_column', 'column': 'av', 'scale': 5, 'on': 0}]),
+    'bootstrap-sample-and-split-part-become-databases': lambda: (
+        _t(_PANEL, ints=['Person', 'k', 'av']), _panel_sp(),
+        [{'op': 'sample', 'size': 12}, {'op': 'adopt', 'which': 0}, {'op': 'scale_column', 'column': 'x', 'scale': 10},
+         {'op': 'split', 'k': 3, 'groups': None, 'on': 0}, {'op': 'adopt', 'which': 0}, {'op': 'scale_column', 'column': 'p', 'scale': 2},
+         {'op': 'scale_column', 'column': 'k', 'scale': 2}, {'op': 'scale_column', 'column': 'x', 'scale': 0.5, 'on': 0}]),
     'shuffled-labels-bootstrap': lambda: (
         _t(_PANEL, labels=[9, 3, 4, 0, 7, 1, 8, 2, 6, 5], ints=['Person', 'k', 'av']), _panel_sp(),
         [{'op': 'sample', 'size': 40}, {'op': 'remove', **_eq('k', 3)}, {'op': 'sample', 'size': 40},
@@ -274,21 +296,37 @@ def run_case(case):
 
     shadow = sh.Shadow(table['cols'], [tuple(table['data'][c][i] for c in table['cols']) for i in range(len(table['labels']))], table['labels'])
     try:
-        db = Database('c13', c13_ops.frame(table))
+        db = Database('c13', c13_ops.frame(table))  # the caller's DataFrame is db.data at this moment
     except BaseException as e:  # noqa
         rec.violation(f'C13/constructor-raises-{type(e).__name__}', str(e), {'table': table})
         return rec.out()
     done = []
     judged = [0]
-    used_names = set()
     n0 = shadow.n()
-    state = {'db': db, 'shadow': shadow, 'removed': False, 'gaps_since_panel': False}
+
+    class _Current:
+        """the database the next operation is applied to (one of ``tables``)"""
+        t = None
+
+        def __getitem__(self, k):
+            return self.t[k]
+
+        def __setitem__(self, k, v):
+            self.t[k] = v
+
+    # every Database object the sequence has produced so far, each with its own shadow
+    tables = [{'db': db, 'shadow': shadow, 'sp': sp, 'used': set(), 'removed': False, 'gaps_since_panel': False, 'origin': 'initial'}]
+    # frames handed out by split / sample_with_replacement, with a deep snapshot taken when they were returned
+    frames = []
+    state = _Current()
+    state.t = tables[0]
+    caller = {'frame': db.data, 'snap': sh.snap(db.data), 'changed': False}
     rec.c('index_kind_' + table['index_kind'])
     if table['ints']:
         rec.c('tables_with_int64_columns')
 
     def wit(**kw):
-        w = {'table': table, 'betas': sp.betas, 'operations': done}
+        w = {'table': table, 'betas': sp.betas, 'operations': done, 'databases': [t['origin'] for t in tables]}
         w.update(kw)
         return w
 
@@ -320,6 +358,39 @@ def run_case(case):
         if got['labels'] != want['labels']:
             rec.c('index_relabelled_by_' + op)
             state['shadow'].labels = list(got['labels'])
+
+    def others(op):
+        """aliasing: an operation on one database must leave every OTHER database of the sequence equal to its own
+        shadow, and every frame returned earlier by split / sample as it was when returned"""
+        for k, t in enumerate(tables):
+            if t is state.t:
+                continue
+            rec.ev()
+            rec.c('other_database_checked_after_operation')
+            got, want = sh.snap(t['db'].data), t['shadow'].snapshot()
+            if not sh.same_rows(got, want):
+                viol('operation-on-one-database-changes-another',
+                     f'{op} on database #{tables.index(state.t)} ({state["origin"]}) changed database #{k} ({t["origin"]}): {sh.diff(got, want)}')
+                raise _Stop()
+        for f in frames:
+            rec.ev()
+            rec.c('returned_frame_checked_after_operation')
+            got = sh.snap(f['obj'])
+            if not sh.same_rows(got, f['snap']):
+                viol(f'operation-changes-frame-returned-by-{f["origin"]}', f'{op} changed a frame returned earlier by {f["origin"]}: {sh.diff(got, f["snap"])}')
+                raise _Stop()
+        if not caller['changed']:
+            # the DataFrame handed to Database(...): the statement speaks of Database.data and of return values only,
+            # so whether the caller's own frame follows the operations is counted, not judged
+            if not sh.same_rows(sh.snap(caller['frame']), caller['snap']):
+                caller['changed'] = True
+                rec.c('callers_frame_modified_first_by_' + op)
+
+    def keep_frame(obj, origin):
+        if len(obj) == 0:
+            return
+        frames.append({'obj': obj, 'snap': sh.snap(obj), 'origin': origin, 'sp': copy.deepcopy(state['sp'])})
+        del frames[:-5]
 
     def gaps():
         s = state['shadow']
@@ -366,13 +437,15 @@ def run_case(case):
         a = d['ast']
         if d['op'] == 'remove' and a[0] == 'num' and len(a) > 2:  # a plain Python number, as in remove(0)
             return int(a[1]) if float(a[1]).is_integer() else float(a[1])
-        e, _ = build.build({'ast': a, 'shared': d.get('shared') or [], 'betas': sp.betas})
+        e, _ = build.build({'ast': a, 'shared': d.get('shared') or [], 'betas': state['sp'].betas})
         return e
 
     def one(d):
         op = d['op']
         s = state['shadow']
         D = state['db']
+        sp = state['sp']
+        used_names = state['used']
         mon.EXPECT.clear()
         tag = op + ('_index_with_gaps' if gaps() else '')
         if op == 'remove':
@@ -436,6 +509,9 @@ def run_case(case):
                 raise _Stop()
             s.scale(c, f)
             c13_ops.after_scale(sp, c, f, s.col(c))
+            if len(tables) > 1:
+                rec.c('scale_in_place_with_other_databases_alive')
+            rec.c('scale_%s_factor_on_%s_column' % ('integer' if isinstance(f, int) else 'float', 'int64' if str(D.data[c].dtype).startswith('int') else 'float64'))
         elif op == 'panel':
             c = d['column']
             if not sh.contiguous(s.snapshot(), c):
@@ -479,10 +555,14 @@ def run_case(case):
                     rec.c('split_folds_ge_rows')
                 if any(len(f.validation) == 0 for f in res):
                     rec.c('split_with_empty_validation_part')
+                j = r.randrange(len(res))
+                keep_frame(res[j].validation, 'split')
+                keep_frame(res[j].estimation, 'split')
         elif op == 'sample':
-            call(op, lambda: D.sample_with_replacement(d['size']) if d['size'] is not None else D.sample_with_replacement())
+            ok, res = call(op, lambda: D.sample_with_replacement(d['size']) if d['size'] is not None else D.sample_with_replacement())
             rec.ev()
             monitors(op)
+            keep_frame(res, 'sample_with_replacement')
         elif op == 'sample_map':
             exp = BiogemeError if s.panel is None else None
             ok, _ = call(op, lambda: D.sample_individual_map_with_replacement(d['size']), expect=exp)
@@ -493,10 +573,18 @@ def run_case(case):
                 monitors(op)
         elif op == 'extract_rows':
             pos = d['positions']
-            if d['form'] == 'range':
+            form = d['form']
+            if form == 'range':
                 arg = range(pos[0], pos[-1] + 1)
+            elif form == 'srange':  # stepped range: positions == list(range(start, stop, step))
+                arg = range(*d['range'])
+            elif form == 'tuple':
+                arg = tuple(pos)
+            elif form == 'array':
+                arg = np.array(pos, dtype=np.int64)
             else:
                 arg = list(pos)
+            rec.c('extract_rows_argument_' + form)
             exp = IndexError if d['form'] == 'out' else None
             ok, res = call(op, lambda: D.extract_rows(arg), expect=exp)
             if ok:
@@ -505,12 +593,33 @@ def run_case(case):
                     raise _Stop()
                 if len(set(pos)) != len(pos):
                     rec.c('extract_rows_with_repeated_positions')
+                compare(op)
+                others(op)
+                # the extracted database joins the sequence: later operations go to either of them, and each
+                # must stay equal to its own shadow whatever happens to the other
+                t = {'db': res, 'shadow': s.extract(pos), 'sp': copy.deepcopy(sp), 'used': set(used_names), 'removed': False,
+                     'gaps_since_panel': False, 'origin': 'extract_rows(' + form + ')'}
+                tables.append(t)
                 if d.get('switch'):
-                    compare(op)
-                    state['db'] = res
-                    state['shadow'] = s.extract(pos)
-                    state['gaps_since_panel'] = False
+                    state.t = t
                     rec.c('sequence_continues_on_extracted_database')
+                rec.c('op_' + tag)
+                return True
+        elif op == 'adopt':
+            # a frame returned earlier by split / sample_with_replacement becomes a Database of its own
+            if not frames:
+                return False
+            f = frames[d['which'] % len(frames)]
+            ok, res = call(op, lambda: Database('adopted', f['obj']))
+            t = {'db': res, 'shadow': sh.Shadow(f['snap']['cols'], f['snap']['rows'], f['snap']['labels']), 'sp': f['sp'], 'used': set(used_names),
+                 'removed': False, 'gaps_since_panel': False, 'origin': 'Database(frame returned by ' + f['origin'] + ')'}
+            frames.remove(f)
+            tables.append(t)
+            state.t = t
+            rec.c('op_adopt')
+            rec.c('sequence_continues_on_database_built_from_returned_frame')
+            compare(op)
+            return True
         elif op == 'flat':
             exp = BiogemeError if s.panel is None else None
             ident = d['identical']
@@ -542,6 +651,7 @@ def run_case(case):
         else:
             rec.c('op_' + tag)
         compare(op)
+        others(op)
         return True
 
     try:
@@ -553,13 +663,24 @@ def run_case(case):
             d = None
             if script is not None:
                 d = script[step]
+                if 'on' in d:
+                    state.t = tables[d['on']]
             else:
+                live = [t for t in tables if t['shadow'].n() > 0]
+                if len(live) > 1 and r.random() < 0.45:
+                    t = r.choice(live)
+                    if t is not state.t:
+                        state.t = t
+                        rec.c('subject_switched_to_another_database_of_the_sequence')
                 for _ in range(6):
-                    d = c13_ops.next_op(r, sp, state['shadow'], used_names, first=(step == 0))
+                    d = c13_ops.next_op(r, state['sp'], state['shadow'], state['used'], first=(step == 0), nframes=len(frames),
+                                        aliasing=len(tables) > 1)
                     if d is not None:
                         break
             if d is None:
                 continue
+            if len(tables) > 1:
+                d = dict(d, on=tables.index(state.t))
             prev = done[-1]['op'] if done else 'start'
             done.append(_brief(d))
             try:
@@ -607,7 +728,11 @@ def finalize(cov, tier):
     for m in MONITORS:
         if cov.get('monitor_' + m, 0) == 0:
             out.append(f'monitor never evaluated: {m}')
-    for k in ('bootstrap_individuals_after_rows_removed_from_panel', 'sequence_continues_on_extracted_database', 'remove_condition_with_negative_values',
+    for k in ('other_database_checked_after_operation', 'returned_frame_checked_after_operation', 'subject_switched_to_another_database_of_the_sequence',
+              'sequence_continues_on_database_built_from_returned_frame', 'extract_rows_argument_range', 'extract_rows_argument_srange',
+              'extract_rows_argument_tuple', 'extract_rows_argument_array', 'extract_rows_argument_list',
+              'scale_in_place_with_other_databases_alive',
+              'bootstrap_individuals_after_rows_removed_from_panel', 'sequence_continues_on_extracted_database', 'remove_condition_with_negative_values',
               'add_column_after_rows_were_removed', 'panel_on_index_with_gaps', 'split_grouped', 'split_plain', 'flat_identical_auto',
               'flat_identical_declared', 'extract_rows_with_repeated_positions'):
         if cov.get(k, 0) == 0:
